@@ -162,6 +162,28 @@ func Pool() []Block {
 				N("Path").WithBody("{\n  \"i\": @int,\n  \"f\": 2.5, // {type: \"@flt\"}\n  \"s\": @c\n}"),
 				N("200", "any"))
 		})},
+		// URL-level Tags written last, after a method without and a method with parentheses
+		{Name: "H_tagslast", Kind: "http", Defines: []string{"path:/tl"}, Needs: []string{"tag:@g"}, Nodes: one(func() *Node {
+			return N("URL", "/tl").WithParen().WithKids(
+				N("GET").WithKids(N("200", "any")),
+				N("DELETE").WithParen().WithKids(N("204", "empty")),
+				N("Tags", "@g"))
+		})},
+		// a declared tag whose name is the automatic tag name of a path that also has tagless methods
+		{Name: "G_cats", Kind: "tag", Defines: []string{"tag:@cats"}, Nodes: one(func() *Node { return N("TAG", "@cats").WithAnn("All cats") })},
+		{Name: "H_usecats", Kind: "http", Defines: []string{"path:/usecats"}, Needs: []string{"tag:@cats"}, Nodes: one(func() *Node {
+			return N("GET", "/usecats").WithKids(N("Tags", "@cats"), N("200", "any"))
+		})},
+		// one macro with a description of several lines, pasted by two methods
+		{Name: "M_desc", Kind: "macro", Defines: []string{"macro:@md"}, Nodes: one(func() *Node {
+			return N("MACRO", "@md").WithParen().WithKids(N("Description").WithBody("Line one\n  line two\nline three\nline four"), N("404", "any"))
+		})},
+		{Name: "H_d12", Kind: "http", Defines: []string{"path:/d1", "path:/d2"}, Needs: []string{"macro:@md"}, Nodes: func() []*Node {
+			return []*Node{
+				N("GET", "/d1").WithParen().WithKids(N("PASTE", "@md"), N("200", "any")),
+				N("POST", "/d2").WithParen().WithKids(N("200", "any"), N("PASTE", "@md")),
+			}
+		}},
 		{Name: "H_tag", Kind: "http", Defines: []string{"path:/tagged"}, Needs: []string{"tag:@g"}, Nodes: one(func() *Node {
 			return N("DELETE", "/tagged").WithKids(N("Tags", "@g"), N("204", "empty"))
 		})},
